@@ -149,6 +149,11 @@ class Documents(HypPart):
             return {'tape': b[:-2].hex(), 'opts': {}, 'L': L}
         return hex_tapes(22, 500 if tier == 'quick' else 1500).map(to_case)
 
+    def describe(self, case):
+        opts = {'exclude': c03.Documents().excludes() + c09.RT_EXCLUDES, 'reflow_safe': True,
+                'refs': bool(int(case['tape'][:2] or '0', 16) % 3 == 0)}
+        return 'L=%s\n%s' % (case.get('L'), c03.build(case, opts)[1])
+
     def check(self, case):
         L = case.get('L')
         if not isinstance(L, int) or not 1 <= L <= 120:
